@@ -128,6 +128,12 @@ class _World:
                 out.append((self.z(b), self.z(bp)))
         return out
 
+    def valid_goal(self, t):
+        """`for all bit values, t` when used ONLY as the goal of an obligation
+        whose assumptions do not mention bits: the bits stay free constants
+        (skolemised by the negation of the goal), no expansion needed."""
+        return t
+
     def ghost(self, name, over):
         """Specification-only predicate (skolem / schema variable): z3 term."""
         bits = self.groups(over) if not isinstance(over, list) else over
